@@ -181,3 +181,16 @@ VARIANTS += [
       "self._instance.bin_height \\\n"
       "            * self._instance.bin_width", "silent"),
 ]
+
+LE = "moptipyapps/binpacking2d/objectives/bin_count_and_last_empty.py"
+VARIANTS += [
+    V("last-empty-lower-bound-one-bin-too-many", LE,
+      "((self._instance.lower_bound_bins - 1)",
+      "((self._instance.lower_bound_bins - 0)", "fire", "D2.1"),
+    V("last-small-lower-bound-full-bin-for-one-bin", LS,
+      "            return self._instance.total_item_area\n",
+      "            return self._bin_size\n", "fire", "D2.1"),
+    V("silent-last-empty-lower-bound-weaker", LE,
+      "((self._instance.lower_bound_bins - 1)",
+      "((self._instance.lower_bound_bins - 2)", "silent"),
+]
